@@ -51,6 +51,19 @@ def poset(tier, variant):
         rf = add('F0.r.Finished', 'rule_finished', feature=0, rule=0, deps=[prev])
         add('F0.Finished', 'feature_finished', feature=0, deps=[a_last, rf])
         return E
+    if variant == 'rule-two-scenarios':
+        # one feature, one rule, two scenarios of the rule in flight at once (steps between Started and Finished)
+        f0s = add('F0.Started', 'feature_started', feature=0)
+        rs = add('F0.r.Started', 'rule_started', feature=0, rule=0, deps=[f0s])
+        lasts = []
+        for sn in ('a', 'b'):
+            prev = rs
+            for w in ('Started', 'Step', 'Finished'):
+                prev = add('%s.%s' % (sn, w), 'scenario', feature=0, rule=0, scenario=sn, attempt=None, what=w, deps=[prev])
+            lasts.append(prev)
+        rf = add('F0.r.Finished', 'rule_finished', feature=0, rule=0, deps=lasts)
+        add('F0.Finished', 'feature_finished', feature=0, deps=[rf])
+        return E
     if variant == 'three-features':
         # A is at the head while B and C are announced; which of them gets content first, and when A ends, is free
         a_s = add('F0.Started', 'feature_started', feature=0)
@@ -111,7 +124,7 @@ def obligations(chk, prop, variants=None):
     import multiprocessing as mp
     pfx = '' if prop == 'C11' else 'normalize.'
     if variants is None:
-        variants = ['basic', 'rule', 'immediate', 'mixed', 'three-features'] + (['two-scenarios'] if chk.tier == 'thorough' else [])
+        variants = ['basic', 'rule', 'immediate', 'mixed', 'three-features', 'rule-two-scenarios'] + (['two-scenarios'] if chk.tier == 'thorough' else [])
     bound = ('every linearisation (chosen symbolically) of the event posets %s: 2 features, one scenario retried once '
              '(attempt counter symbolic k < 2^32: attempts k and k+1), a second scenario top-level / inside a rule%s; '
              'run-Started first, run-Finished last; inner writer futures ready at once'
